@@ -245,6 +245,7 @@ def config(draw, max_chain=4, max_warm=12, max_main=8, adapters=True, parallel=T
         # how the generator reached its state: seeded directly, by jumped(), or by assigning a saved state to a
         # generator created without a seed (checkpoint restore)
         "rng_init": draw(st.sampled_from(["seeded", "seeded", "jumped", "state-restored"])),
+        "max_threads": draw(st.sampled_from([None, None, 1])),
     }
     if cfg["adapters"] in ("step+var", "step+covar") and cfg["stager"] == "warmup":
         cfg["stager"] = "default"
@@ -408,6 +409,8 @@ def run(cfg, b, memdir=None, timeout=120, n_process="cfg"):
         kw["force_memmap"] = True
     if cfg["storage"] == "memmap_dir":
         kw["memmap_path"] = memdir
+    if cfg.get("max_threads") is not None:
+        kw["max_threads_per_process"] = cfg["max_threads"]
     style = cfg.get("no_adapters_as")
     if b.hmc:
         kw["adapters"] = b.adapter_list if (b.adapter_list or style != "none") else None
